@@ -24,6 +24,7 @@ def _run(prop, prefixes, what, tier, seed, replay, extra=None):
         engine.strict_stage(rep, tier, seed, prop)
     if prop == "C08":
         engine.trigger_stage(rep, tier, seed)
+        engine.init_stage(rep, tier, seed, ("C08:",))
     if extra:
         extra(rep, tier, seed)
     rep.assumptions += ASSUME
